@@ -1037,7 +1037,19 @@ pub fn run(args: &Args, rep: &mut Report) {
     let mut failed_sessions = 0u64;
     let mut total_sessions = 0u64;
     for (k, mut rng) in case_iter(args, 0x5E55, 20) {
-        let hist = gen_history(&mut rng, &l, &o);
+        let mut hist = gen_history(&mut rng, &l, &o);
+        // debugging aid: XV_ONLY_FILES=a,b keeps only these file positions in every session
+        if let Ok(v) = std::env::var("XV_ONLY_FILES") {
+            let keep: Vec<usize> = v.split(',').filter_map(|x| x.parse().ok()).collect();
+            for s in hist.iter_mut() {
+                let mut i = 0;
+                s.files.retain(|_| {
+                    i += 1;
+                    keep.contains(&(i - 1))
+                });
+            }
+            hist.retain(|s| !s.files.is_empty());
+        }
         let tmp = tempfile::tempdir().expect("tempdir");
         let d = Dirs { root: tmp.path().to_path_buf() };
         let mut st = HistoryState {
@@ -1046,6 +1058,9 @@ pub fn run(args: &Args, rep: &mut Report) {
         };
         for (si, spec) in hist.iter().enumerate() {
             total_sessions += 1;
+            if std::env::var("XV_DUMP_SPECS").is_ok() {
+                eprintln!("SPEC case {k} session {si}: {}", session_json(spec));
+            }
             let out = run_session(&d, spec, Plan::default(), ErrPolicy::AbandonSession);
             let wit = |what: &str| {
                 let mut w = witness_base(args, "session", k);
